@@ -52,6 +52,8 @@ class Contract:
         self.note = kw.pop("note", "")
         self.result_fields_unconstrained = kw.pop("result_fields_unconstrained", False)
         self.bind = dict(kw.pop("bind", {}))
+        # ghost definitions evaluated once in the pre-state, usable in requires/ensures/invariants: [(name, expr)]
+        self.let = [(str(a), str(b)) for a, b in kw.pop("let", [])]
         # extra runs with some parameter types replaced, e.g. [{"second": "obj:BloomFilterOnDisk"}, {"second": "foreign"}]
         self.variants = list(kw.pop("variants", []))               # lemma text: local name -> contract key
         if kw:
